@@ -285,6 +285,7 @@ func cmdCheck(args []string) int {
 	var violLines []string
 	var knownLines []string
 	vacuous := false
+	var deadReturns []string
 	var samples []any
 	solverUse := map[string]int{}
 	maxSecs := 0.0
@@ -298,8 +299,16 @@ func cmdCheck(args []string) int {
 		if o.Kind == "cover" {
 			covers++
 			if r.Status == "unsat" {
-				vacuous = true
-				fmt.Fprintf(os.Stderr, "BROKEN: vacuity: %s is unreachable (contradictory precondition or assumption)\n", o.Name)
+				if strings.Contains(o.Name, "#cover(return@") && j.u.Contract != nil && contains(j.u.Contract.Unreachable, o.Name[strings.Index(o.Name, "#cover(")+7:len(o.Name)-1]) {
+					// whitelisted dead return (e.g. after log.Panic)
+				} else if strings.Contains(o.Name, "#cover(return@") {
+					vacuous = true
+					fmt.Fprintf(os.Stderr, "BROKEN: vacuity: %s (%s:%d) is unreachable under the contract's assumptions\n", o.Name, shortFile(o.Pos.Filename), o.Pos.Line)
+					deadReturns = append(deadReturns, fmt.Sprintf("%s (%s:%d)", o.Name, shortFile(o.Pos.Filename), o.Pos.Line))
+				} else {
+					vacuous = true
+					fmt.Fprintf(os.Stderr, "BROKEN: vacuity: %s is unreachable (contradictory precondition or assumption)\n", o.Name)
+				}
 			}
 			rep.Status = "cover:" + r.Status
 			reports = append(reports, rep)
@@ -423,6 +432,7 @@ func cmdCheck(args []string) int {
 			"samples":                  samples,
 			"obligation_reports":       reports,
 			"known_findings":           knownLines,
+			"unreachable_returns":      deadReturns,
 			"expect":                   expectNote,
 		},
 		"assumptions": asm,
@@ -436,6 +446,9 @@ func cmdCheck(args []string) int {
 	}
 	for _, l := range knownLines {
 		fmt.Println(l)
+	}
+	for _, d := range deadReturns {
+		fmt.Fprintln(os.Stderr, "UNREACHABLE-RETURN (check for vacuity):", d)
 	}
 	fmt.Printf("%s %s: %d/%d obligations discharged, %d cover checks, %d functions, %.1fs (load %.1fs, vcgen %.1fs, solve %.1fs)\n",
 		*prop, *tier, discharged, total, covers, len(targets), time.Since(t0).Seconds(), loadSecs, genSecs, solveSecs)
